@@ -11,6 +11,7 @@ everyone else strict), cache evictions and GC at yield points (strict).
 from __future__ import annotations
 
 import itertools
+import json
 import os
 import pickle
 import select
@@ -209,8 +210,17 @@ _CLI_DIRS: dict[str, str] = {}
 SCRATCH_BASE = "/dev/shm" if os.path.isdir("/dev/shm") and os.access("/dev/shm", os.W_OK) else tempfile.gettempdir()
 
 
+_CLI_CFG_NAMES = (".flowmark.toml", "flowmark.toml", "pyproject.toml")
+
+
 def _cli_dir(cfg: dict[str, str] | None) -> str:
-    key = digest([os.getpid(), cfg], 16)
+    """
+    The project directory of this process' cli calls, holding exactly the config file `cfg`.
+    One directory per process: a later call with another config *edits the project's config*
+    (all cli calls of one epoch carry the same config, so concurrent calls agree on it; this
+    function runs between yield points, i.e. atomically as far as the scheduler is concerned).
+    """
+    key = str(os.getpid())
     d = _CLI_DIRS.get(key)
     if d is None:
         d = tempfile.mkdtemp(prefix="dst-c13-" + os.environ.get("VERIF_RUN_TAG", "x") + "-", dir=SCRATCH_BASE)
@@ -219,18 +229,28 @@ def _cli_dir(cfg: dict[str, str] | None) -> str:
         # a barrier above the project so that no config file farther up is ever consulted
         with open(os.path.join(os.path.dirname(d), ".flowmark.toml"), "w") as f:
             f.write("")
+        _CLI_DIRS[key] = d
+        _CLI_DIRS[key + ":cfg"] = "null"
+    want = json.dumps(cfg, sort_keys=True)
+    if _CLI_DIRS[key + ":cfg"] != want:
+        for n in _CLI_CFG_NAMES:
+            try:
+                os.unlink(os.path.join(d, n))
+            except OSError:
+                pass
         if cfg:
             with open(os.path.join(d, cfg["name"]), "w", encoding="utf-8") as f:
                 f.write(cfg["text"])
-        _CLI_DIRS[key] = d
+        _CLI_DIRS[key + ":cfg"] = want
     return d
 
 
 def _cleanup_cli_dirs() -> None:
     import shutil
 
-    for d in list(_CLI_DIRS.values()):
-        shutil.rmtree(os.path.dirname(d), ignore_errors=True)
+    for k_, d in list(_CLI_DIRS.items()):
+        if not k_.endswith(":cfg"):
+            shutil.rmtree(os.path.dirname(d), ignore_errors=True)
     _CLI_DIRS.clear()
 
 
@@ -393,7 +413,7 @@ def gen_cli_cfg(rng: Any) -> dict[str, str] | None:
 
 
 def gen_cli_call(rng: Any, text: str, cfg: dict[str, str] | None) -> dict[str, Any]:
-    mode = rng.choice(["auto", "auto", "inplace", "out"])
+    mode = rng.choice(["auto", "auto", "inplace"])  # (`-o FILE` with a file argument is a usage error in flowmark)
     argv: list[str] = []
     if rng.random() < 0.4:
         argv += rng.choice([["-w", str(rng.choice([20, 50, 60, 88]))], ["--width=" + str(rng.choice([50, 70]))]])
@@ -602,6 +622,8 @@ def gen_case(run_seed: int, tier: str, index: int | None = None) -> dict[str, An
     cli_cfg = gen_cli_cfg(cw) if cli_run else None
     total_calls = 0
     for e in range(n_epochs):
+        if cli_run and e and cw.random() < 0.5:
+            cli_cfg = gen_cli_cfg(cw)  # somebody edits the project's config file between two epochs
         concurrent = w.random() < 0.65
         nthreads = w.choice([2, 2, 3, 3, 4]) if concurrent else 1
         threads = []
